@@ -206,6 +206,46 @@ func specialPlans(rng *rand.Rand, cfg Cfg) []HostilePlan {
 			frameBytes(0, []byte{0x80}), frameBytes(0, []byte{0x90, 96, 0, 1, 0, 0, 0, 1, 0, 0, 0, 2, 0xff, 0xff, 0xff, 0xff}), frameBytes(0, rtpPacket(96, 1)), frameBytes(0, rtpPacket(96, 40000)), frameBytes(0, rtpPacket(97, 2)),
 			frameBytes(0, append(rtpPacket(96, 3)[:12], 28, 0x80)), frameBytes(0, append(rtpPacket(96, 4)[:12], 24, 0xff, 0xff)), frameBytes(1, []byte{0x80, 200, 0, 6, 0, 0, 0, 2, 1, 2, 3, 4, 5, 6, 7, 8, 0, 0, 0, 1, 0, 0, 0, 1, 0, 0, 0, 1})}, Silent: true, Drain: true},
 	}
+	// well-formed media sent by the peer in the wrong direction: valid RTP / RTCP on the RTP and the
+	// RTCP channel of every media, with known and unknown payload types, in every state
+	media := func() [][]byte {
+		var out [][]byte
+		sr := []byte{0x80, 200, 0, 6, 0, 0, 0, 9, 1, 2, 3, 4, 5, 6, 7, 8, 0, 0, 0, 1, 0, 0, 0, 1, 0, 0, 0, 1}
+		rrb := []byte{0x81, 201, 0, 7, 0, 0, 0, 9, 0, 0, 0, 1, 0, 0, 0, 0, 0, 0, 0, 5, 0, 0, 0, 0, 0, 0, 0, 0, 0, 0, 0, 0}
+		for _, ch := range []int{0, 1, 2, 3, 4, 5, 254} {
+			for _, pt := range []byte{96, 0, 97, 127} {
+				out = append(out, frameBytes(ch, rtpPacket(pt, uint16(100+ch))))
+				out = append(out, frameBytes(ch, rtpPacket(pt|0x80, uint16(200+ch)))) // marker bit
+			}
+			out = append(out, frameBytes(ch, rtcpRR()), frameBytes(ch, sr), frameBytes(ch, rrb))
+		}
+		return out
+	}()
+	keepAlive := (&RawReq{Method: "OPTIONS", URL: u, Headers: hdr(90, [2]string{"Session", "{{SID}}"})}).Bytes()
+	getParam := (&RawReq{Method: "GET_PARAMETER", URL: u, Headers: hdr(91, [2]string{"Session", "{{SID}}"})}).Bytes()
+	pause := (&RawReq{Method: "PAUSE", URL: u, Headers: hdr(92, [2]string{"Session", "{{SID}}"})}).Bytes()
+	with := func(head [][]byte, tail ...[]byte) [][]byte { return append(append([][]byte{}, head...), tail...) }
+	// one well-formed frame at a time per state that closes the connection, all of them where they are consumed
+	plans0 := []HostilePlan{
+		{Label: "valid-media-upstream-play-tcp", Chunks: with([][]byte{setupTCP(1, 0, false), setupTCP(2, 1, true), play(3)}, media...), Silent: true, Drain: true},
+		{Label: "valid-media-upstream-play-tcp-one-track", Chunks: with([][]byte{setupTCP(1, 1, false), play(2)}, media...), Silent: true, Drain: true},
+		{Label: "valid-media-upstream-play-pause-play", Chunks: with(with([][]byte{setupTCP(1, 0, false), play(2)}, media[:12]...), pause, play(4), media[0], media[1], media[16], media[17], keepAlive), Silent: true, Drain: true},
+		{Label: "valid-media-upstream-record-tcp", Chunks: with([][]byte{announce, recSetup("RTP/AVP/TCP;unicast;interleaved=0-1;mode=record"), record}, media...), Silent: true, Drain: true},
+		{Label: "valid-media-upstream-preplay-rtp", Chunks: [][]byte{setupTCP(1, 0, false), media[0]}, Silent: true, Drain: true},
+		{Label: "valid-media-upstream-preplay-rtcp", Chunks: [][]byte{setupTCP(1, 0, false), frameBytes(1, rtcpRR())}, Silent: true, Drain: true},
+		{Label: "valid-media-upstream-initial", Chunks: [][]byte{(&RawReq{Method: "OPTIONS", URL: u, Headers: hdr(1)}).Bytes(), media[0]}, Silent: true, Drain: true},
+		{Label: "valid-media-upstream-prerecord", Chunks: [][]byte{announce, recSetup("RTP/AVP/TCP;unicast;interleaved=0-1;mode=record"), media[0]}, Silent: true, Drain: true},
+		{Label: "valid-media-upstream-ws-play", WS: true, Chunks: with([][]byte{setupTCP(1, 0, false), setupTCP(2, 1, true), play(3)}, media...), Silent: true, Drain: true},
+		{Label: "valid-media-upstream-http-play", B64: true, Chunks: with([][]byte{setupTCP(1, 0, false), setupTCP(2, 1, true), play(3)}, media...), Silent: true, Drain: true},
+	}
+	// tunnelled (and plain) readers in PLAY + a request flood on the same connection while the stream is written
+	for _, tun := range []string{"ws", "http", "plain"} {
+		for _, dr := range []string{"fast", "slow", "none"} {
+			plans0 = append(plans0, HostilePlan{Label: "flood-" + tun + "-play-" + dr, WS: tun == "ws", B64: tun == "http",
+				Chunks: [][]byte{setupTCP(1, 0, false), setupTCP(2, 1, true), play(3)},
+				Flood:  4000, FloodReqs: [][]byte{keepAlive, getParam, frameBytes(1, rtcpRR())}, FloodDrain: dr, Silent: true, Drain: true})
+		}
+	}
 	// a publisher that announces many codecs and then sends random payloads for each of them
 	{
 		sdp := "v=0\r\no=- 0 0 IN IP4 127.0.0.1\r\ns=x\r\nc=IN IP4 0.0.0.0\r\nt=0 0\r\n" +
@@ -242,6 +282,7 @@ func specialPlans(rng *rand.Rand, cfg Cfg) []HostilePlan {
 		}
 		plans = append(plans, HostilePlan{Label: "record-tcp-many-codecs-random-rtp", Chunks: chunks, Silent: true, Drain: true})
 	}
+	plans = append(plans, plans0...)
 	if cfg.TLS {
 		// secure profile: key management accepted, then frames that do not authenticate, and a wrong SSRC
 		ku := baseURL(cfg, "/pub") + "/trackID=0"
@@ -255,6 +296,32 @@ func specialPlans(rng *rand.Rand, cfg Cfg) []HostilePlan {
 		)
 	}
 	if cfg.UDP && !cfg.TLS {
+		var dgrams []UDPSend
+		for _, pt := range []byte{96, 0, 97} {
+			for _, fr := range []bool{false, true} {
+				for _, to := range []bool{false, true} {
+					dgrams = append(dgrams, UDPSend{FromRTCP: fr, ToRTCP: to, Data: rtpPacket(pt, 7)},
+						UDPSend{FromRTCP: fr, ToRTCP: to, Data: rtcpRR()},
+						UDPSend{FromRTCP: fr, ToRTCP: to, Data: []byte{0x80, 200, 0, 6, 0, 0, 0, 9, 1, 2, 3, 4, 5, 6, 7, 8, 0, 0, 0, 1, 0, 0, 0, 1, 0, 0, 0, 1}},
+						UDPSend{FromRTCP: fr, ToRTCP: to, Data: make([]byte, 1473)}, UDPSend{FromRTCP: fr, ToRTCP: to, Data: []byte{}})
+				}
+			}
+		}
+		udpSetup := func(cseq, track int, sess bool) []byte {
+			r := &RawReq{Method: "SETUP", URL: fmt.Sprintf("%s/trackID=%d", u, track), Headers: hdr(cseq, [2]string{"Transport", "RTP/AVP;unicast;client_port={{HP}}-{{HP1}}"})}
+			if sess {
+				r.Headers = append(r.Headers, [2]string{"Session", "{{SID}}"})
+			}
+			return r.Bytes()
+		}
+		plans = append(plans,
+			HostilePlan{Label: "valid-media-upstream-play-udp", BindUDP: true, UDP: dgrams, PauseMs: 20,
+				Chunks: [][]byte{udpSetup(1, 0, false), play(2)}, Silent: true, Drain: true},
+			HostilePlan{Label: "valid-media-upstream-preplay-udp", BindUDP: true, UDP: dgrams, PauseMs: 20,
+				Chunks: [][]byte{udpSetup(1, 0, false)}, Silent: true, Drain: true},
+			HostilePlan{Label: "valid-media-upstream-record-udp", BindUDP: true, UDP: dgrams, PauseMs: 20,
+				Chunks: [][]byte{announce, recSetup("RTP/AVP;unicast;client_port={{HP}}-{{HP1}};mode=record"), record}, Silent: true, Drain: true},
+		)
 		plans = append(plans,
 			HostilePlan{Label: "record-udp-port0", Chunks: [][]byte{announce, recSetup("RTP/AVP;unicast;client_port=0-1;mode=record"), record}, Silent: true, Drain: true},
 			HostilePlan{Label: "record-udp-port65535", Chunks: [][]byte{announce, recSetup("RTP/AVP;unicast;client_port=65535;mode=record"), record}, Silent: false, Drain: true},
@@ -345,6 +412,11 @@ func genScenario(rng *rand.Rand, seed uint64, idx int, dist func(string)) Scenar
 		}
 		sc.Peers = append(sc.Peers, plan)
 	}
+	for _, p := range sc.Peers {
+		if p.Flood > 0 {
+			sc.PubBurst = 12
+		}
+	}
 	return sc
 }
 
@@ -368,6 +440,9 @@ func corpusScenarios() []Scenario {
 		{Name: "scenario-corpus-ws-early-data", Cfg: cfg, GoodUDP: true, Peers: pick("ws-early-data", "ws-then-raw")},
 		{Name: "scenario-corpus-record-badport", Cfg: cfg, GoodUDP: true, Peers: pick("record-udp-port0", "record-udp-port65535", "record-udp-hugeport")},
 		{Name: "scenario-corpus-udp-port-collision", Cfg: cfg, GoodUDP: true, Peers: pick("play-udp-good-ports-second-setup")},
+		{Name: "scenario-corpus-valid-media-upstream", Cfg: cfg, GoodUDP: false, Peers: pick("valid-media-upstream-play-tcp", "valid-media-upstream-play-udp")},
+		{Name: "scenario-corpus-flood-ws", Cfg: cfg, GoodUDP: true, PubBurst: 12, Peers: pick("flood-ws-play-slow", "flood-ws-play-fast")},
+		{Name: "scenario-corpus-flood-ws-stalled", Cfg: cfg, GoodUDP: false, PubBurst: 12, Peers: pick("flood-ws-play-none", "flood-http-play-slow")},
 		{Name: "scenario-corpus-tls-silent", Cfg: Cfg{Handler: "full", TLS: true}, Peers: pick("silent-raw", "silent")},
 	}
 }
